@@ -20,7 +20,7 @@ CFG = {
                   "the others carry explicit hypotheses.",
     "level_note_wallet": " Wallet level (engine wallet-restart, model WalletRestart, theorems C08_wallet_*; the history theorems carry the suffix _partial because they assume NoEagerCommitFail, see below): proved for all such histories of wallet requests "
                          "(NewAddress, NewChangeAddress, CurrentAddress, CreateSimpleTx dry/real/failing, FundPsbt, ImportAccountDryRun ok/failing, ImportAccount, "
-                         "RenameAccount, NextAccount, Lock/Unlock): dry runs and failed requests never change the database image; the account cache stays coherent; "
+                         "RenameAccount, NextAccount, Lock/Unlock, passphrase changes, restart): dry runs and failed requests never change the database image; the account cache stays coherent; "
                          "AccountProperties / AccountNumber / AccountName / next address of every branch agree with a restarted wallet; NewAddress / NewChangeAddress "
                          "return what a restarted wallet returns (C08_wallet_dryrun_keeps_disk / _failed_keeps_disk unconditionally; C08_wallet_coherent_invariant_partial, "
                          "_committed_eq_reopen_partial, _dryrun_keeps_next_partial, _failed_keeps_next_partial, _next_issue_eq_reopen_partial, "
